@@ -132,7 +132,8 @@ def check_C01(ctx):
     for r in rows:
         if r["kind"] != "internal":
             continue
-        ctx.report({"kind": "internal-error", "engine": r["engine"], "donor": r["donor"], "class": r["a"]},
+        ctx.report({"kind": "internal-error", "engine": r["engine"], "donor": r["donor"], "class": r["a"],
+                    "detail": r.get("detail", "")},
                    "checker-accepted program failed with %s on %s (history %s from %s behaviours, step %d)\n  %s\n  program: %s"
                    % (r["a"], r["engine"], r["hist"], r["donor"], r["step"], r["b"][:500], r["src"][:600]),
                    {"prefix": r.get("prefix"), "source": r["src"], "engine": r["engine"]})
